@@ -129,7 +129,7 @@ def groups : List String → List One
 
 `run` = `np;off;cache;net;apks;ops` (one tab field per run)
   net  = `,`-list of `<F|E|N>:x<url>:<tok>:<archive id>`  (F local file with version token, E remote with ETag, N remote without)
-  apks = `|`-list of `x<arch>/<ign>/<nosig ,-list>/<keys ,-list of x<name>:<pem>>/<repos ,-list>`
+  apks = `|`-list of `x<arch>/<ign>/<nosig ,-list>/<keys ,-list of x<name>:<pem>>/<repos ,-list>[/<root ,-list of x<dir>:x<name>:<pem>>]`
   ops  = `|`-list of `<stop>!<resn>&<resn>…`, resn = `<reader>><sib>.<sib>…` (indexes into apks)
 `goClasses` = runs `/`-separated, one letter per operation: `L` every index loaded, `E` an index was refused / unreachable
 `goAnswers` = runs `/`, operations `|`, answers `&`: `<resn>=<f|n><rec>,<rec>…` (f: full records, n: name|version only), `-` = none
@@ -211,10 +211,22 @@ def mkNet (off cache : Bool) (es : List NetEnt) : Net where
     | some e => some (if e.kind == "E" then some e.tok else none, tokAi e.aid)
     | none => none
 
+/-- key files the root holds outside the keys directory: `,`-list of `x<dir>:x<name>:<pem>` -/
+def parseRootFiles (s : String) : List RootFile :=
+  (splitList s).filterMap fun x =>
+    match x.splitOn ":" with
+    | [d, n, pem] => some ⟨unx d, unx n, pem.toList⟩
+    | _ => none
+
+/-- the APK's key set is `keysOfRoot` of everything the harness put into the root: the configured keys (files of
+`etc/apk/keys`) and whatever else it holds -/
 def parseApk (s : String) : Option Apk :=
   match s.splitOn "/" with
   | [a, ign, nosig, keys, repos] =>
     some ⟨unx a, (splitList repos).map unx, parseKeys keys, ign == "1", (splitList nosig).map unx⟩
+  | [a, ign, nosig, keys, repos, root] =>
+    let files := (parseKeys keys).map (fun k => (⟨keysDirPath, k.1, k.2⟩ : RootFile)) ++ parseRootFiles root
+    some ⟨unx a, (splitList repos).map unx, keysOfRoot files, ign == "1", (splitList nosig).map unx⟩
   | _ => none
 
 def parseResn (apks : List Apk) (s : String) : Option Resn :=
